@@ -136,9 +136,19 @@ func (r *SexpRaw) Type() *RegisteredType {
 
 type SexpReflect struct {
 	Val reflect.Value
+
+	// Typ is the declared type, when the value was made from a
+	// declaration (var x T). Without it the type has to be guessed from
+	// the Go type name of Val, and for pointer and slice types made by the
+	// registry that name is the same for all of them ("reflect.Value"),
+	// so the answer was whichever such type had been registered last.
+	Typ *RegisteredType
 }
 
 func (r *SexpReflect) Type() *RegisteredType {
+	if r.Typ != nil {
+		return r.Typ
+	}
 	k := reflectName(reflect.Value(r.Val))
 	//Q("SexpReflect.Type() looking up type named '%s'", k)
 	ty, ok := GoStructRegistry.Registry[k]
